@@ -7,6 +7,7 @@ mod endpoint;
 mod queue;
 mod session;
 mod sim;
+mod synctest;
 mod timesync;
 mod util;
 
@@ -24,6 +25,7 @@ fn main() {
         "sim" => sim::run(),
         "queue" => queue::run(),
         "session" => session::run(),
+        "synctest" => synctest::run(),
         "timesync" => timesync::run(),
         "profile" => println!("{}", if cfg!(debug_assertions) { "debug" } else { "release" }),
         _ => {
